@@ -94,6 +94,12 @@ CLAIMS = {
         "DESIGN.md section 3, C19"),
 }
 
+CLAIMS["C20"] = (
+    "abstract interpretation over MIR (interval flags: lower bound >= 1e-15 known / upper bound <= 1 known) with constants by value, clamp as the only sanitiser, f64::min/max/clamp lattice rules, callee summaries by fixpoint, struct-field summaries over construction sites, container-element summaries; plus structural check of the sanitiser and sibling agreement on the exact/approximate switch-over predicate",
+    "One clause only: every reported p-value lies in [1e-15, 1] and non-finite intermediates map to 'no evidence' - for all inputs, by construction of the abstract interpretation (any arithmetic result is unbounded until sanitised). Exactness of the rank tests/estimators against their definitions and the invariances are numerical and NOT decided.",
+    "Trusted: rustc nightly MIR and float constant evaluation, factgen extraction, the table of p-valued fields/functions in vf/props/c20.py, lattice rules for f64::min/max (NaN-ignoring) and clamp.",
+    "DESIGN.md section 3, C20")
+
 NOT_APPLICABLE = {
     "C11": "Equality between parsed kernel text and the reported inventory, and an exact codec over the whole u32 range: values all the way down; no structural clause that is both exact and necessary was found (see DESIGN.md C11).",
     "C16": "Counts, sums and bucket indices are arithmetic over runtime observations and thread histories; no structural necessary condition beyond what rustc already enforces (see DESIGN.md C16).",
